@@ -40,7 +40,7 @@ PROPS = {
              "optional override of the null context, fopen failures and seeded read chunking from the parse op's fault script, parse with and without a search path; "
              "oracle = reference dispatcher producing the exact handler-call trace incl. state tokens, stack balance and index<capacity through read-only accessors; "
              "distinct = distinct trace hash; non-trivial = >= 3 ops",
-             probes=["depth_crossed_20", "depth_crossed_40", "depth_crossed_80", "depth_crossed_160", "include_depth_crossed_10", "include_depth_crossed_20", "include_depth_crossed_40",
+             probes=["line_delivered_with_open_expansion", "depth_crossed_20", "depth_crossed_40", "depth_crossed_80", "depth_crossed_160", "include_depth_crossed_10", "include_depth_crossed_20", "include_depth_crossed_40",
                      "include_depth_crossed_80", "include_depth_crossed_160", "unknown_context", "surplus_end", "eof_without_newline", "include_open_failed", "contexts_crossed_20",
                      "contexts_crossed_160", "unbalanced_input", "file_opened_but_unreadable", "empty_file",
                      "delivered_value_was_expanded", "include_refused_at_depth_255", "root_found_through_search_path"]),
@@ -81,20 +81,20 @@ PROPS = {
              "iterator beyond the end, dup, del; keys 0..5 so duplicates are common); the same plan runs on array, linked_list and dlinked_list; after every op every list is "
              "read back completely (structure walk, count, get(i) for i in [-len-1,len], fresh iterator, to_array) and compared with an ideal sequence with holes; "
              "distinct = distinct trace hash; non-trivial = >= 3 ops",
-             probes=["elements_of_two_comparable_classes", "insert_at_hole_created", "insert_at_len", "insert_at_refused", "remove_at_refused", "removed_last", "reverse_empty", "iterator_one_past_end",
+             probes=["iterator_copied", "elements_of_two_comparable_classes", "insert_at_hole_created", "insert_at_len", "insert_at_refused", "remove_at_refused", "removed_last", "reverse_empty", "iterator_one_past_end",
                      "probe_is_own_element", "iterator_abandoned_midway",
                      "list_dup", "dup_of_empty_container", "dup_of_container_with_hole"]),
     "C03": P(["plain", "plainz"], 30, 900,
              "plans = seeded map histories (3..40 ops over 2 slots: set, set via pair, remove, has_value, get_keys/values/pairs into NULL or an existing list, dup, del; "
              "key ranges 3 and 9 so overwrites and removals of min/max/only key are common; caller key/value objects mutated and deleted right after set); "
              "same plan on the three map classes; after every op: structure walk, count, iterator, get/has_key for every key of the universe; distinct = distinct trace hash; non-trivial = >= 3 ops",
-             probes=["elements_of_two_comparable_classes", "overwrite_existing", "remove_min", "remove_max", "remove_only", "caller_key_mutated_after_set", "set_via_pair", "set_key_as_its_own_value", "get_list_into_existing", "dup_of_empty_container",
+             probes=["iterator_copied", "elements_of_two_comparable_classes", "overwrite_existing", "remove_min", "remove_max", "remove_only", "caller_key_mutated_after_set", "set_via_pair", "set_key_as_its_own_value", "get_list_into_existing", "dup_of_empty_container",
                      "set_own_value", "probe_is_own_element", "iterator_abandoned_midway", "get_list_into_linked_list", "get_list_into_empty_list"]),
     "C04": P(["plain", "plainz"], 30, 900,
              "plans = seeded vector histories (3..40 ops over 2 slots: insert, remove (also with the stored element itself as the probe), find, contains with present/absent/below-min/above-max probes, abandoned and exhausted iterators, dup, del; keys 0..7, one plan in eight prefilled with 30..100 elements over keys 0..47); after every step a sweep of find/contains over every key; "
              "same plan on the three vector classes; after every op: structure walk, sortedness, multiset equality by element identity, count, iterator, to_array; "
              "distinct = distinct trace hash; non-trivial = >= 3 ops",
-             probes=["elements_of_two_comparable_classes", "plain_objects_gigabytes_apart", "insert_duplicate_of_max", "insert_duplicate_of_only_element", "insert_below_min", "probe_below_min", "probe_above_max", "single_element_vector", "dup_of_empty_container",
+             probes=["iterator_copied", "elements_of_two_comparable_classes", "plain_objects_gigabytes_apart", "insert_duplicate_of_max", "insert_duplicate_of_only_element", "insert_below_min", "probe_below_min", "probe_above_max", "single_element_vector", "dup_of_empty_container",
                      "probe_is_own_element", "iterator_abandoned_midway", "iterator_one_past_end"]),
     "C07": P(["asan", "asanz"], 30, 900,
              "plans = seeded histories (4..40 ops, pool of 4 mbuff objects, direct functions or class-table macros) from a random constructor "
